@@ -130,6 +130,59 @@ def run_template(files, expected):
         return [] if got == expected else [f"loaded {got}, the files say {expected}"]
 
 
+READER_TRACK = """{
+  "version": 2, "description": "bounded reader scenario",
+  "indices": [{"name": "logs", "body": "index-body.json"}],
+  "operations": [{"name": "append", "operation-type": "bulk", "bulk-size": {{ bulk_size | default(100) }}}],
+  "schedule": [{"operation": "append", "clients": {{ clients | default(2) }}, "warmup-time-period": 5, "time-period": 10}]
+}"""
+READER_BODY = '{"settings": {"index.number_of_shards": {{ shards | default(1) }}, "index.number_of_replicas": {{ replicas | default(0) }}}}'
+
+
+def reader_cases():
+    """(name, user-defined track parameters, expected observation or 'error')  -- through the REAL TrackFileReader.read on a track directory whose
+    index body file is a template too: parameters used ONLY there count as used; unused / reserved parameters are a configuration error"""
+    d0 = {"bulk-size": 100, "clients": 2, "shards": 1, "replicas": 0}
+    return [
+        ("no parameters", None, d0),
+        ("parameter used in track.json", {"bulk_size": 500}, dict(d0, **{"bulk-size": 500})),
+        ("parameter used only in the index body file", {"shards": 3}, dict(d0, shards=3)),
+        ("parameters used in track.json and in the index body file", {"clients": 8, "replicas": 1}, dict(d0, clients=8, replicas=1)),
+        ("misspelled (unused) parameter", {"shard": 3}, "error"),
+        ("unused parameter next to a used one", {"shards": 3, "unknown_knob": 1}, "error"),
+        ("reserved parameter", {"now": "2020-01-01"}, "error"),
+    ]
+
+
+def run_reader(params, expected):
+    from esrally import config, exceptions, paths
+    from esrally.track import loader
+
+    with tempfile.TemporaryDirectory() as d:
+        open(os.path.join(d, "track.json"), "w").write(READER_TRACK)
+        open(os.path.join(d, "index-body.json"), "w").write(READER_BODY)
+        cfg = config.Config()
+        cfg.add(config.Scope.application, "node", "rally.root", paths.rally_root())
+        if params is not None:
+            cfg.add(config.Scope.application, "track", "params", dict(params))
+        saved = sys.stdout
+        sys.stdout = open(os.devnull, "w")
+        try:
+            t = loader.TrackFileReader(cfg).read("bounded", os.path.join(d, "track.json"), d)
+        except (exceptions.TrackConfigError, loader.TrackSyntaxError) as ex:
+            return [] if expected == "error" else [f"valid track with parameters {params} rejected: {type(ex).__name__}: {str(ex)[:160]}"]
+        except Exception as ex:  # noqa
+            return [f"parameters {params}: {type(ex).__name__}: {str(ex)[:160]}"]
+        finally:
+            sys.stdout = saved
+        if expected == "error":
+            return [f"track loaded although the parameters {params} are unused / reserved"]
+        task = t.challenges[0].schedule[0]
+        got = {"bulk-size": task.operation.params["bulk-size"], "clients": task.clients, "shards": t.indices[0].body["settings"]["index.number_of_shards"],
+               "replicas": t.indices[0].body["settings"]["index.number_of_replicas"]}
+        return [] if got == expected else [f"parameters {params}: loaded values {got}, expected {expected}"]
+
+
 def main():
     from esrally.track import loader
 
@@ -145,6 +198,11 @@ def main():
             except loader.TrackSyntaxError:
                 print("NOT-REPRODUCED: rejected")
                 sys.exit(0)
+        if kind == "reader":
+            name, params, exp = next(x for x in reader_cases() if x[0] == rec["name"])
+            p = run_reader(params, exp)
+            print(("REPRODUCED: " if p else "NOT-REPRODUCED: ") + f"TrackFileReader.read, {name}: {p}")
+            sys.exit(1 if p else 0)
         if kind == "template":
             desc, files, exp = next(x for x in template_cases() if x[0] == rec["name"])
             p = run_template(files, exp)
@@ -192,7 +250,12 @@ def main():
         p = run_template(files, exp)
         if p:
             violations.append({"kind": "template", "name": desc, "problems": p})
-    json.dump({"bound": "base track with 2 challenges (tasks + parallel), optional-property drops, 17 single-rule violations, include depth <= 2", "cases": cases, "nontrivial": cases - 1,
+    for name, params, exp in reader_cases():
+        cases += 1
+        p = run_reader(params, exp)
+        if p:
+            violations.append({"kind": "reader", "name": name, "problems": p})
+    json.dump({"bound": "base track with 2 challenges (tasks + parallel), optional-property drops, 17 single-rule violations, include depth <= 2, 7 track-parameter sets through TrackFileReader.read", "cases": cases, "nontrivial": cases - 1,
                "violations": violations[:5]}, open(sys.argv[1], "w"), indent=1)
     sys.exit(1 if violations else 0)
 
